@@ -36,12 +36,13 @@ type refusal struct {
 	mu    sync.Mutex
 	count map[string]int
 	fired atomic.Bool
+	off   atomic.Bool
 }
 
 var errRefused = fmt.Errorf("harness refusal: %w", network.ErrResourceLimitExceeded)
 
 func (r *refusal) hit(kind string) bool {
-	if r == nil {
+	if r == nil || r.off.Load() {
 		return false
 	}
 	r.mu.Lock()
@@ -203,9 +204,9 @@ func (g *gater) rej(h string) bool {
 	}
 	return true
 }
-func (g *gater) InterceptPeerDial(peer.ID) bool                     { return g.rej("InterceptPeerDial") }
-func (g *gater) InterceptAddrDial(peer.ID, ma.Multiaddr) bool       { return g.rej("InterceptAddrDial") }
-func (g *gater) InterceptAccept(network.ConnMultiaddrs) bool        { return g.rej("InterceptAccept") }
+func (g *gater) InterceptPeerDial(peer.ID) bool               { return g.rej("InterceptPeerDial") }
+func (g *gater) InterceptAddrDial(peer.ID, ma.Multiaddr) bool { return g.rej("InterceptAddrDial") }
+func (g *gater) InterceptAccept(network.ConnMultiaddrs) bool  { return g.rej("InterceptAccept") }
 func (g *gater) InterceptSecured(network.Direction, peer.ID, network.ConnMultiaddrs) bool {
 	return g.rej("InterceptSecured")
 }
@@ -234,13 +235,13 @@ var psk = func() []byte {
 }()
 
 type node struct {
-	id      *keys.Identity
-	real    network.ResourceManager
-	rm      *rm
-	gater   *gater
-	up      transport.Upgrader
-	tpt     *memtpt.Transport
-	ip      net.IP
+	id    *keys.Identity
+	real  network.ResourceManager
+	rm    *rm
+	gater *gater
+	up    transport.Upgrader
+	tpt   *memtpt.Transport
+	ip    net.IP
 }
 
 func newNode(idx int, cfg config, nw *memtpt.Network, ref *refusal, g *gater, ip net.IP) (*node, error) {
